@@ -518,6 +518,48 @@ func (m *ledgerMon) check(h uint32, b *BlockSpec, prevDump, dump []string, prevW
 				}
 			}
 		}
+		// C07 / C13 (Lean: priced_with_the_window_mean): when every one of the AveragePeriod heights
+		// ending at the last rated height before the block is rated and quotes the asset, the
+		// average the node holds for it is the mean of exactly those quotes (0 when fewer than half
+		// are non-zero) — whatever path produced it
+		if fromH >= 0 && m.avgs != nil && len(convs) > 0 && int64(m.avgsHeight) == fromH && m.s.AvgPeriod > 0 && fromH >= int64(m.s.AvgPeriod) {
+			period := int64(m.s.AvgPeriod)
+			seen := map[string]bool{}
+			for _, c := range convs {
+				for _, asset := range []string{c.t.fromAsset, c.t.toAsset} {
+					if seen[asset] {
+						continue
+					}
+					seen[asset] = true
+					whole := true
+					sum := new(big.Int)
+					nz := 0
+					for g := fromH - period + 1; g <= fromH; g++ {
+						v, has := L.Rates[g][asset]
+						if !has {
+							whole = false
+							break
+						}
+						if v != 0 {
+							nz++
+						}
+						sum.Add(sum, new(big.Int).SetUint64(v))
+					}
+					if !whole {
+						continue
+					}
+					exp := uint64(0)
+					if int64(nz) >= period/2 {
+						exp = new(big.Int).Div(new(big.Int).Mod(sum, new(big.Int).Lsh(big.NewInt(1), 64)), big.NewInt(period)).Uint64()
+					}
+					tick := fat2.StringToTicker(asset)
+					m.rep.Count("conversion:window-mean-checked")
+					if got := m.avgs[tick]; got != exp {
+						m.violate("conversion:window-mean", fmt.Sprintf("block %d: the node's average of %s at height %d is %d, the mean of the %d quotes of heights %d..%d is %d", h, asset, fromH, got, period, fromH-period+1, fromH, exp), h)
+					}
+				}
+			}
+		}
 		// C07: the averages a block prices its conversions with are those taken at the last rated
 		// height before it
 		if fromH >= 0 && m.avgs != nil && len(convs) > 0 && int64(m.avgsHeight) != fromH {
